@@ -167,6 +167,52 @@ def run(ctx):
         jvp_check(ctx, 'color/srgb_to_lab/boundary', lambda x: CC.srgb_to_lab(x), bcol[0].clone(), 5e-2, cls={'boundary': True}, h=2e-4)
         lab = CC.srgb_to_lab(bcol[0]).detach()
         jvp_check(ctx, 'color/lab_to_srgb/boundary', lambda x: CC.lab_to_srgb(x), lab.clone(), 5e-2, cls={'boundary': True}, h=2e-3)
+        # the model run at Chk Float (value + "every local slope on the autograd graph is finite", both branches of each torch.where):
+        # wherever the model says the graph is non-singular, autograd must return finite gradients
+        if ctx.drv_ok:
+            chk_names = ctx.model.ask(['chk_names'])[0].split()
+            specials = [0.0, 1.0, 0.0031308, 0.04045, 0.5, 216 / 24389, 6 / 29, 1e-12, 0.25]
+            for nm, op, k in (('rgb_2_ycrcb', 'rgb2ycrcb', 3), ('ycrcb_2_rgb', 'ycrcb2rgb', 3), ('linear_rgb_to_xyz', 'lin2xyz', 3),
+                              ('xyz_to_linear_rgb', 'xyz2lin', 3), ('srgb_to_lab', 'srgb2lab', 3), ('lab_to_srgb', 'lab2srgb', 3),
+                              ('rgb_to_linear_rgb', 'srgb2lin', 1), ('linear_rgb_to_rgb', 'lin2srgb', 1)):
+                if op not in chk_names:
+                    ctx.alarm('correspondence', 'model driver has no Chk entry for %s' % nm)
+                    continue
+                pix = [[rng.choice(specials) if rng.random() < 0.6 else rng.uniform(0, 1) for _ in range(3)] for _ in range(6)] + [[0.0] * 3, [1.0] * 3]
+                if nm == 'lab_to_srgb':
+                    pix = [[rng.choice([0.0, 100.0, 50.0, rng.uniform(0, 100)]), rng.choice([0.0, rng.uniform(-80, 80)]), rng.choice([0.0, rng.uniform(-80, 80)])]
+                           for _ in range(8)]
+                t = torch.tensor(pix, dtype=torch.float32).T.reshape(3, len(pix), 1).clone().requires_grad_(True)
+                inp = t if nm in ('srgb_to_lab', 'lab_to_srgb') else t.unsqueeze(0)
+                try:
+                    out = getattr(CC, nm)(inp)
+                    g, = torch.autograd.grad(out.sum(), t)
+                except Exception as e:
+                    ctx.violation('color/%s raised %r' % (nm, e), {'entry': nm}, {'entry': 'color/' + nm, 'what': 'raises'})
+                    continue
+                gp = g.reshape(3, len(pix)).T
+                lines = []
+                for p_ in pix:
+                    for comp in (range(3) if k == 1 else [None]):
+                        xs = [p_[comp]] if k == 1 else p_
+                        lines.append('chk %d %d %s' % (chk_names.index(op), len(xs), ' '.join(str(f2b(float(np.float32(a)))) for a in xs)))
+                outs = ctx.model.ask(lines)
+                per = 3 if k == 1 else 1
+                for i, p_ in enumerate(pix):
+                    oks = []
+                    for o in outs[i * per:(i + 1) * per]:
+                        v = [b2f(tk) for tk in o.split()]
+                        oks += v[1::2]
+                    model_ok = all(a == 1.0 for a in oks)
+                    fin = bool(torch.isfinite(gp[i]).all())
+                    ctx.case(('chk', nm, tuple(p_)), True)
+                    ctx.count('chk/%s/%s' % (nm, 'model-nonsingular' if model_ok else 'model-singular'))
+                    if model_ok and not fin:
+                        ctx.alarm('correspondence', 'color/%s at pixel %r: the model (Chk) says every local slope is finite but autograd returns %r'
+                                  % (nm, p_, gp[i].tolist()))
+                    if not model_ok:
+                        ctx.alarm('proof', 'color/%s at the valid pixel %r: the regenerated model has a singular primitive on its autograd graph '
+                                  '(an unclamped power / division inside a torch.where branch)' % (nm, p_))
         # per-pixel colour derivative against the regenerated model
         px = rnd(3, lo=0.15, hi=0.9, dtype=torch.float32)
         for nm, op in (('rgb_2_ycrcb', 'rgb2ycrcb'), ('linear_rgb_to_xyz', 'lin2xyz'), ('xyz_to_linear_rgb', 'xyz2lin')):
